@@ -7,7 +7,7 @@ svdriver_c12: line protocol for the C12 model (layer life cycle behind fs/layer.
         -> ok <hit|fresh|existing> l=<layer id> h=<holder#> <tail>   |   err <blob|meta> <tail>
   done <h> <0|1>                            -> unit <tail>              Done() / Close()
   expire l <name> | expire b <name>         -> unit <tail>              timer of layer / blob cache
-  refresh <h> <0|1>                         -> ok|err <tail>
+  refresh <h> <0|1|2>                       -> ok|err <tail>     (2: refreshed source has another size)
   read <h> | readold <h>                    -> ok|err <tail>
 <tail> = fs=<#fscache dirs> http=<#httpcache dirs> ev=<lid:cRMFBH,...|->
 `ev` lists every layer whose status changed during the operation (new layers included) with its
@@ -51,6 +51,14 @@ def parseBool? : String → Option Bool
   | "1" => some true
   | _ => none
 
+/-- `refresh <h> <how>`: 1 the registry answers; 0 it does not; 2 it answers with a source of another
+size, which `blob.Refresh` rejects — for the model both 0 and 2 are "the refresh does not succeed". -/
+def parseHow? : String → Option Bool
+  | "0" => some false
+  | "1" => some true
+  | "2" => some false
+  | _ => none
+
 def showOut (st : St) (s' : State) (o : Out) : St × String :=
   let t := tail st.s s'
   let h := st.holders.length
@@ -71,7 +79,7 @@ def parseOp? (st : St) : List String → Option Op
   | ["done", h, e] => do some (.done (← st.holders[← parseNat? h]?) (← parseBool? e))
   | ["expire", "l", n] => do some (.expireL (← parseNat? n))
   | ["expire", "b", n] => do some (.expireB (← parseNat? n))
-  | ["refresh", h, r] => do some (.refresh (← st.holders[← parseNat? h]?) (← parseBool? r))
+  | ["refresh", h, r] => do some (.refresh (← st.holders[← parseNat? h]?) (← parseHow? r))
   | ["read", h] => do some (.read (← st.holders[← parseNat? h]?))
   | ["readold", h] => do some (.readOld (← st.holders[← parseNat? h]?))
   | _ => none
